@@ -960,6 +960,8 @@ def _generator_clauses(ctx: Ctx):
               f"an anonymous literal on a base-structure property gets the struct names {names} through two inheriting "
               "structures and the base: the field type must be the same non-empty struct name each time", flatten.P_RC, None)
     for (shape, optional, null_adm), field in sorted(flatten.fold_rust_option(idx).items(), key=repr):
+        if field.startswith("raises "):
+            raise AnalysisError(f"{flatten.P_RC}: generate_property {field} when folded for a {shape} property")
         want = bool(optional) or null_adm
         got = ": Option<" in field
         ctx.check(field.startswith("pub ") and got == want, "generator-option-iff-optional-or-null",
